@@ -86,8 +86,12 @@ func vapplyTx(rows []vrow, x *vtx) []vrow {
 }
 
 // vreadsHold: would the reads x made return the same results on the given state?
-func vreadsHold(rows []vrow, x *vtx, r0a string) bool {
+func vreadsHold(rows []vrow, x *vtx, r0a string, readAfterWrite bool) bool {
 	ok := true
+	base := rows // the implicit reads of the write (own lookup of r0, duplicate check) come before it
+	if readAfterWrite {
+		rows = vapplyTx(rows, x) // the explicit read came after its own write and saw it
+	}
 	if x.readKind == 0 {
 		// rows in [lo,hi) in key order (at most 3 rows: insertion sort)
 		var in []string
@@ -121,6 +125,7 @@ func vreadsHold(rows []vrow, x *vtx, r0a string) bool {
 			ok = rt.And(ok, b == x.seenB)
 		}
 	}
+	rows = base
 	if x.writeKind == 1 {
 		// its own lookup of r0 by the original key
 		found := false
@@ -155,13 +160,13 @@ func VerifC01Serial() {
 	var rows []vrow
 	ut := db.NewUpdateTran()
 	vapply("setup", ut, &rows, 0, "r0")
-	rt.Assert("setup/commit", vcommit(db, ut, rt.Pick("merge0", 2) == 1))
+	rt.Assert("setup/commit", vcommit(db, ut, !rt.Thorough() || rt.Pick("merge0", 2) == 1))
 	r0 := rows[0]
 	var x [2]*vtx
 	for i := range x {
 		n := string(rune('0' + i))
 		x[i] = &vtx{readKind: rt.Pick("read"+n, 2), writeKind: rt.Pick("write"+n, 2),
-			a: rt.Str("a"+n, 1), b: rt.Str("b"+n, 1)}
+			a: rt.Str("a"+n, 1), b: "b" + n}
 		if x[i].writeKind == 1 {
 			rt.Assume(x[i].a != r0.a) // a real change (write-free transactions are serialised at their snapshot)
 		}
@@ -177,6 +182,7 @@ func VerifC01Serial() {
 	write := func(i int) { x[i].write(r0) }
 	commit := func(i int) { x[i].commit(db) }
 	order := [2]int{0, 1} // commit order
+	readAfterWrite := false
 	switch rt.Pick("schedule", 5) {
 	case 0:
 		start(0)
@@ -225,6 +231,7 @@ func VerifC01Serial() {
 		read(0)
 		commit(0)
 		commit(1)
+		readAfterWrite = true // only for transaction 0
 	}
 	rt.Reach("ran")
 	state := vcopyRows(rows)
@@ -232,7 +239,7 @@ func VerifC01Serial() {
 		if !x[i].committed {
 			continue
 		}
-		rt.Assert("serializable/reads-hold-at-commit-point", vreadsHold(state, x[i], r0.a))
+		rt.Assert("serializable/reads-hold-at-commit-point", vreadsHold(state, x[i], r0.a, readAfterWrite && i == 0))
 		state = vapplyTx(state, x[i])
 	}
 	rt.Assert("serializable/someone-commits", x[order[0]].committed || x[order[1]].committed || x[0].failed || x[1].failed)
